@@ -520,8 +520,9 @@ func (f *FrameV1) SetAppendixData(appendix []byte) error {
 		f.data = f.data[:origDataSize]
 		return errors.New("appendix data too big")
 
-	case len(appendix) > len(f.data)-f.appendixIndex:
-		// Not enough space in the current slice, move to a bigger one.
+	case len(appendix) > len(f.data)-f.appendixIndex-f.requiredOverhead():
+		// Not enough space in the current slice (the required overhead margin
+		// after the frame must stay free), move to a bigger one.
 		f.data = f.data[:origDataSize]
 		if err := f.moveToBiggerSlice(f.appendixIndex + len(appendix)); err != nil {
 			return err
@@ -539,6 +540,16 @@ func (f *FrameV1) SetAppendixData(appendix []byte) error {
 
 		return nil
 	}
+}
+
+// requiredOverhead returns the overhead margin that must stay available after
+// the frame data.
+func (f *FrameV1) requiredOverhead() int {
+	if f.builder == nil {
+		return 0
+	}
+	_, overhead := f.builder.FrameMargins()
+	return overhead
 }
 
 // moveToBiggerSlice moves the frame to a pooled slice that can hold frame data
